@@ -159,7 +159,7 @@ def histories(ctx, n, steps):
             regs.append(('e' + p.tok(), p.affine(), p.a))
         for _s in range(steps):
             (tp, ap, ea), (tq, aq, eb) = rng.choice(regs), rng.choice(regs)
-            op = rng.choice(['add', 'sub', 'neg', 'eq', 'sum', 'roundtrip', 'addassign', 'subassign', 'csel'])
+            op = rng.choice(['add', 'sub', 'neg', 'eq', 'sum', 'roundtrip', 'addassign', 'subassign', 'csel', 'cassign', 'cswap', 'cneg'])
             if op in ('add', 'addassign'):
                 aff = ref.aff_add(ap, aq)
                 rid = ctx.add('rs.' + op, tp, tq, expect=pts.expect_rs(aff), cls='history')
@@ -188,11 +188,22 @@ def histories(ctx, n, steps):
                 rid2 = ctx.add('rs.decompress', ctx.ref(rid, 0), expect=pts.expect_rs(ap), cls='history')
                 ctx.add('rs.eq', tp, ctx.ref(rid2, 1), expect=['T', 'T'], cls='history')
                 regs.append((ctx.ref(rid2, 1), ap, ea))
-            elif op == 'csel':
+            elif op in ('csel', 'cassign'):
                 ch = rng.random() < 0.5
                 s = (tq, aq, eb) if ch else (tp, ap, ea)
-                rid = ctx.add('rs.csel', tp, tq, B(ch), expect=pts.expect_rs(s[1]), cls='history')
+                rid = ctx.add('rs.' + op, tp, tq, B(ch), expect=pts.expect_rs(s[1]), cls='history')
                 regs.append((ctx.ref(rid, 1), s[1], s[2]))
+            elif op == 'cswap':
+                ch = rng.random() < 0.5
+                x, y = ((tq, aq, eb), (tp, ap, ea)) if ch else ((tp, ap, ea), (tq, aq, eb))
+                rid = ctx.add('rs.cswap', tp, tq, B(ch), expect=pts.both(pts.expect_rs(x[1]), pts.expect_rs(y[1], idx=2)), cls='history')
+                regs.append((ctx.ref(rid, 1), x[1], x[2]))
+                regs.append((ctx.ref(rid, 3), y[1], y[2]))
+            elif op == 'cneg':
+                ch = rng.random() < 0.5
+                aff = ref.aff_neg(ap) if ch else ap
+                rid = ctx.add('rs.cneg', tp, B(ch), expect=pts.expect_rs(aff), cls='history')
+                regs.append((ctx.ref(rid, 1), aff, (-ea) % L if ch else ea))
     ctx.block()
 
 
